@@ -105,72 +105,39 @@ Definition impl_cf_std (u : unit_t) (r : refdate) (vals : list Z) : option (list
   end.
 
 (* ---------------------------------------------------------------- CF, 365/366-day calendars
-   the fractional-year path of getTimes, in exact arithmetic:
-     fracyear = x / incrdenom + addyears ; yearinc = floor ; dayinc = (fracyear mod 1) * yeardays
-     cday = datetime(yearlike,1,1) + timedelta(days=dayinc)   (rounded to microseconds)
-     out  = datetime(refyear + yearinc, cday.month, cday.day)          -- time of day dropped
-   and, if ANY element is not a date, for ALL elements
-     out  = datetime(refyear + yearinc, 1, 1) + timedelta(days=dayinc) -- real calendar *)
-Definition fx_mult (u : unit_t) : option Z :=       (* incrdenom / yeardays ; 'seconds' shares 'minutes' *)
-  match u with UDays => Some 1 | UHours => Some 24 | UMinutes => Some 1440 | USeconds => Some 1440
-             | _ => None end.
+   the branch as repaired by fixes/C12-fixed-calendars.patch: integer microseconds counted from year 0 of the
+   fixed-length calendar:
+     refus = ((refdate.year * yeardays + day-of-year(refdate) - 1) * 86400e6 + time of day - utcoffset
+     t     = refus + timedelta(unit=float(x)) in microseconds          ('years' = yeardays days)
+     days, us = divmod(t, 86400e6) ; year, doy = divmod(days, yeardays)
+     cday = date(yearlike, 1, 1) + doy days                            (a real year with the calendar's months)
+     out  = datetime(year, cday.month, cday.day, tzinfo=utc) + timedelta(microseconds=us)
+   datetime() raises ValueError (the whole call) for Feb 29 of a common year and for years outside 1..9999. *)
+Definition fx_unit_us64 (leap : bool) (u : unit_t) : option Z :=
+  match u with UYears => Some (fixed_len leap * 1350000000) | _ => unit_us64 u end.
 
-(* fracyear as num / den, and microseconds per unit of the remainder *)
-Definition fx_frac (leap : bool) (u : unit_t) (k0 n : Z) : option (Z * Z * Z) :=
-  let N := fixed_len leap in
-  match u with
-  | UYears => Some (n * N - 64 * k0, 64 * N, 1350000000)
-  | _ => match fx_mult u with
-         | Some f => Some (n - k0 * 64 * f, 64 * f * N, 1350000000 / f)
-         | None => None
-         end
-  end.
+(* civil fields of an instant in a fixed-length-year calendar *)
+Definition fixed_fields (leap : bool) (t : Z) : list Z :=
+  let '(y, m, d) := fixed_of_days leap (t / us_day) in
+  let r := t mod us_day in
+  [y; m; d; r / 3600000000; r mod 3600000000 / 60000000; r mod 60000000 / 1000000; r mod 1000000].
+Definition fixed_ref_us (leap : bool) (p : Z * Z * Z * Z * Z * Z * Z) : Z :=
+  let '(y, m, d, hh, mi, ss, tz) := p in
+  (days_of_fixed leap y m d * 86400 + hh * 3600 + mi * 60 + ss - tz * 60) * us_sec.
+(* a decoded row that Python's datetime can hold *)
+Definition row_ok (l : list Z) : bool :=
+  match l with y :: m :: d :: _ => (1 <=? y) && (y <=? 9999) && valid_date y m d | _ => false end.
 
-Definition fx_k0 (leap : bool) (m0 d0 : Z) : Z :=
-  if (m0 =? 1) && (d0 =? 1) then 0 else doy_of_md leap m0 d0 - 1.
-
-(* one element: (yearinc, dayinc in microseconds); alt = the neighbour the binary64 sum may land on
-   when fracyear is an exact integer and addyears <> 0 (rounding band, see Corr) *)
-Definition fx_elem (alt : bool) (leap : bool) (u : unit_t) (k0 n : Z) : option (Z * Z) :=
-  match fx_frac leap u k0 n with
-  | Some (num, den, q) =>
-      let yi := num / den in let rem := num mod den in
-      if alt && (rem =? 0) && negb (k0 =? 0) then Some (yi - 1, fixed_len leap * us_day)
-      else Some (yi, rem * q)
-  | None => None
-  end.
-
-Definition md_of_days (n : Z) : Z * Z := let '(_, m, d) := civil_of_days n in (m, d).
-
-Definition fx_primary (leap : bool) (refyear : Z) (e : Z * Z) : option (list Z) :=
-  let '(yi, dus) := e in
-  let '(m, d) := md_of_days (jan1 (if leap then 1972 else 1970) + dus / us_day) in
-  let y := refyear + yi in
-  if (1 <=? y) && (y <=? 9999) && valid_date y m d then Some [y; m; d; 0; 0; 0; 0] else None.
-
-Definition fx_fallback (refyear : Z) (e : Z * Z) : option (list Z) :=
-  let '(yi, dus) := e in
-  let y := refyear + yi in
-  if (1 <=? y) && (y <=? 9999) then dt_of_us (jan1 y * us_day + dus) else None.
-
-Definition impl_cf_fixed_gen (alt : bool) (leap : bool) (u : unit_t) (r : refdate) (vals : list Z)
-  : option (list (list Z)) :=
-  match impl_parse r with
-  | Some (y0, m0, d0, _, _, _, _) =>
+Definition impl_cf_fixed (leap : bool) (u : unit_t) (r : refdate) (vals : list Z) : option (list (list Z)) :=
+  match impl_parse r, fx_unit_us64 leap u with
+  | Some p, Some k =>
+      let '(_, m0, d0, _, _, _, _) := p in
       if valid_md leap m0 d0 then
-        let k0 := fx_k0 leap m0 d0 in
-        match all_some (map (fx_elem alt leap u k0) vals) with
-        | Some es =>
-            match all_some (map (fx_primary leap y0) es) with
-            | Some out => Some out
-            | None => all_some (map (fx_fallback y0) es)
-            end
-        | None => None
-        end
+        all_some (map (fun n => let row := fixed_fields leap (fixed_ref_us leap p + n * k) in
+                                if row_ok row then Some row else None) vals)
       else None
-  | None => None
+  | _, _ => None
   end.
-Definition impl_cf_fixed := impl_cf_fixed_gen false.
 
 Definition impl_cf (c : cal_t) (u : unit_t) (r : refdate) (vals : list Z) : option (list (list Z)) :=
   match c with
@@ -205,14 +172,15 @@ Definition spec_cf_std_us (u : unit_t) (r : refdate) (vals : list Z) : option (l
   | _, _ => None
   end.
 
-(* true decoded civil fields in a fixed-length-year calendar *)
-Definition fixed_fields (leap : bool) (t : Z) : list Z :=
-  let '(y, m, d) := fixed_of_days leap (t / us_day) in
-  let r := t mod us_day in
-  [y; m; d; r / 3600000000; r mod 3600000000 / 60000000; r mod 60000000 / 1000000; r mod 1000000].
-Definition fixed_ref_us (leap : bool) (p : Z * Z * Z * Z * Z * Z * Z) : Z :=
-  let '(y, m, d, hh, mi, ss, tz) := p in
-  (days_of_fixed leap y m d * 86400 + hh * 3600 + mi * 60 + ss - tz * 60) * us_sec.
+(* the instant a row of civil fields denotes in the fixed-length calendar *)
+Definition fixed_us_of_fields (leap : bool) (l : list Z) : option Z :=
+  match l with
+  | [y; m; d; h; mi; s; us] =>
+      if valid_md leap m d && valid_tod h mi s && (0 <=? us) && (us <? 1000000)
+      then Some ((days_of_fixed leap y m d * 86400 + h * 3600 + mi * 60 + s) * us_sec + us)
+      else None
+  | _ => None
+  end.
 Definition spec_cf_fixed (leap : bool) (u : unit_t) (r : refdate) (vals : list Z) : option (list (list Z)) :=
   match impl_parse r, unit_us64 u with
   | Some p, Some k =>
@@ -221,24 +189,6 @@ Definition spec_cf_fixed (leap : bool) (u : unit_t) (r : refdate) (vals : list Z
       else None
   | _, _ => None
   end.
-
-(* sub-domain on which the fixed-calendar path is right: reference Jan 1 00:00:00 UTC,
-   unit days/hours/minutes, every value a whole number of days *)
-Definition whole_days (u : unit_t) (n : Z) : bool :=
-  match u with
-  | UDays => n mod 64 =? 0 | UHours => n mod (64 * 24) =? 0 | UMinutes => n mod (64 * 1440) =? 0
-  | _ => false
-  end.
-Definition ref_is_jan1_midnight (r : refdate) : bool :=
-  match impl_parse r with
-  | Some (_, m, d, hh, mi, ss, tz) => (m =? 1) && (d =? 1) && (hh =? 0) && (mi =? 0) && (ss =? 0) && (tz =? 0)
-  | None => false
-  end.
-(* a decoded row that Python's datetime can hold *)
-Definition row_ok (l : list Z) : bool :=
-  match l with y :: m :: d :: _ => (1 <=? y) && (y <=? 9999) && valid_date y m d | _ => false end.
-Definition dom_fixed (u : unit_t) (r : refdate) (vals : list Z) : bool :=
-  ref_is_jan1_midnight r && forallb (whole_days u) vals.
 
 (* ---- inverse mappings on a CF time variable (standard calendars) *)
 (* date2num (repaired by fixes/C12-date2num-refdate.patch) rewrites the units with the reference date read by
